@@ -65,10 +65,10 @@ def pair(ctx, scns):
     clean = [m for m in singles if not has_lone_cr(m)]
     by_push = {}
     for s in sched:
-        by_push.setdefault(s["script"].count("P"), []).append(s)
+        by_push.setdefault(s["script"].count("P") + s["script"].count("T"), []).append(s)
     out = []
     for s in sched:
-        n = s["script"].count("P")
+        n = s["script"].count("P") + s["script"].count("T")      # ("T": the closing message of a chained second stream)
         pool = clean if rnd.random() < 0.75 else singles
         msgs = [rnd.choice(pool) for _ in range(n)]
         out.append({"script": s["script"], "hist": s["hist"], "msgs": msgs, "origin": "sched"})
@@ -83,6 +83,8 @@ def pair(ctx, scns):
         d["pol"] = {"delay": [-1], "spur": [0]}
         d["wmode"] = i % 3
         d["via"] = ("direct", "from", "direct", "router", "direct", "router-from")[i % 6]
+        if d["script"] and d["script"][-1] == "T":      # a schedule of the model with the chain adapter
+            d["via"] = ("chain", "router-chain")[i % 2]
         if "PDecoy" in d["hist"]:        # a schedule of the model with the filter adapter: rejected items are pushed where it says
             d["via"] = ("filter", "router-filter")[i % 2]
     return out
@@ -139,10 +141,13 @@ def pipeline(ctx):
     # the same design behind the adapter StreamExt::filter (rejected items in the queue); an adapter that answers a rejected item with Pending never ends
     ctx.tlc("Sse", "MC_Sse_filter.cfg", workers=4, timeout=900)
     ctx.tlc("Sse", "MC_Sse_filterpending.cfg", workers=1, expect_violation=True)
+    # ... and followed, through the adapter StreamExt::chain, by a second stream; an adapter that takes Pending for exhaustion loses and reorders messages
+    ctx.tlc("Sse", "MC_Sse_chain.cfg", workers=4, timeout=900)
+    ctx.tlc("Sse", "MC_Sse_chaineager.cfg", workers=1, expect_violation=True)
     ctx.tlc("MC_Sse", "MC_Sse_frame.cfg" if q else "MC_Sse_frame_deep.cfg", workers=8, timeout=900)
     # scenarios
     scns = []
-    for cfg in (("Gen_Sse_sched.cfg", "Gen_Sse_sched_filter.cfg", "Gen_Sse_frame.cfg") if q else ("Gen_Sse_sched_deep.cfg", "Gen_Sse_sched_filter.cfg", "Gen_Sse_frame_deep.cfg")):
+    for cfg in (("Gen_Sse_sched.cfg", "Gen_Sse_sched_filter.cfg", "Gen_Sse_sched_chain.cfg", "Gen_Sse_frame.cfg") if q else ("Gen_Sse_sched_deep.cfg", "Gen_Sse_sched_filter.cfg", "Gen_Sse_sched_chain.cfg", "Gen_Sse_frame_deep.cfg")):
         g = ctx.tlc("SseGen", cfg, workers=4, timeout=900)
         if not g.lines:
             raise ToolError("SseGen/%s generated no scenario" % cfg)
